@@ -11,7 +11,7 @@ for f in os.listdir(os.path.join(wt, '_seed')):
     if f.endswith(('.py', '.xml')) and f not in ('demo.py',):
         shutil.copy(os.path.join(wt, '_seed', f), os.path.join(d, f))
 meta = {'seed_id': sid, 'breaks_property': prop, 'needs_to_manifest': needs,
-        'confirmed_by': 'tools/confirm_seed.sh %s: demo exits 1 with the change applied (scratch worktree), exits 0 on unchanged /repo; 54 tests pass with the change' % wt,
+        'confirmed_by': 'tools/confirm_seed.sh (fresh scratch worktree of /repo HEAD + patch, rebuilt; source dir %s): demo exits 1 with the change applied, exits 0 on unchanged /repo; 54 tests pass with the change' % wt,
         'checks_run': 'tools/try_patch.sh seeded/%s/patch.diff' % sid, 'caught_by': caught,
         'written_by': 'independent sub-agent given only the property text and a scratch worktree'}
 json.dump(meta, open(os.path.join(d, 'meta.json'), 'w'), indent=1)
